@@ -302,8 +302,9 @@ func (p Prop) checkClean(c *Case, x *execInfo) (string, string, string) {
 			allowed = []string{patCreate, patUpdate, patDelete}
 		}
 		ok := false
-		for _, a := range allowed {
-			if seq == a {
+		for i, a := range allowed {
+			allowed[i] = fam.HookPattern(model, a) // the hooks this model defines
+			if seq == allowed[i] {
 				ok = true
 			}
 		}
@@ -320,17 +321,26 @@ func (p Prop) checkClean(c *Case, x *execInfo) (string, string, string) {
 			return "hook_sequence", fmt.Sprintf("%s|%s|%s|%s", k, role, model, seq), fmt.Sprintf("%s record %s (%s) saw hooks [%s]; expected %v exactly once", role, rec, model, seq, allowed)
 		}
 		// the record's statement lies between its before- and after-hooks
-		if len(evs) >= 2 && c.R == nil {
-			lo, hi := evs[len(evs)/2-1].Seq, evs[len(evs)/2].Seq
+		if c.R == nil {
+			var lo, hi int64 = -1, -1
+			loName, hiName := "", ""
+			for _, h := range evs {
+				switch {
+				case strings.HasPrefix(h.Hook, "Before"):
+					lo, loName = h.Seq, h.Hook
+				case strings.HasPrefix(h.Hook, "After") && hi < 0:
+					hi, hiName = h.Seq, h.Hook
+				}
+			}
 			table := fam.TableOf[model]
 			found := false
 			for _, ev := range sr.Events {
-				if (ev.Kind == "exec" || ev.Kind == "query") && ev.Seq > lo && ev.Seq < hi && strings.Contains(ev.SQL, "`"+table+"`") {
+				if (ev.Kind == "exec" || ev.Kind == "query") && ev.Seq > lo && (hi < 0 || ev.Seq < hi) && strings.Contains(ev.SQL, "`"+table+"`") {
 					found = true
 				}
 			}
 			if !found {
-				return "hook_order", fmt.Sprintf("%s|%s", k, model), fmt.Sprintf("no statement on %s between %s and %s of record %s", table, evs[len(evs)/2-1].Hook, evs[len(evs)/2].Hook, rec)
+				return "hook_order", fmt.Sprintf("%s|%s", k, model), fmt.Sprintf("no statement on %s between the before-hooks (last: %s) and the after-hooks (first: %s) of record %s", table, loName, hiName, rec)
 			}
 		}
 	}
